@@ -65,9 +65,16 @@ def run(facts, tr, rep):
     rep.floor("C08.write-sites", nw, 7)
 
     # try_withdraw: `true` only on the success edge of a subtracting CAS/fetch_update guarded by balance >= amount
+    _f0, _t0 = facts, tr
     for (c, im, adt_def) in impls:
+        facts, tr = _f0, _t0
         crate_ = c
         items = {it["name"]: it["def"] for it in im["items"]}
+        # the path clauses (GRANT / GUARD / CAP) look at try_withdraw and deposit with their private helpers inlined
+        # (helpers that take the atomic word by reference included); discovery, RMW discipline and the constructors
+        # are judged on the program as written
+        facts0, tr0 = facts, tr
+        facts, tr = facts0.inl, tr0.inl
         tw = facts.bodies.get(items.get("try_withdraw"))
         dp = facts.bodies.get(items.get("deposit"))
         if tw is None or dp is None:
@@ -135,10 +142,10 @@ def run(facts, tr, rep):
                         if cc.name == "is_err" and peel(tr.operand(cc.g.b, cc.args[0], cc.loc)) == V:
                             succ_edges.add((bb, sw.variants["false"]))
         n_true = 0
-        for i, blk in enumerate(W.blocks):
-            for j, s in enumerate(blk["stmts"]):
-                if s["k"] == "assign" and s["lhs"]["l"] == 0 and not s["lhs"]["p"]:
-                    node = peel(tr.operand(W, s["rv"]["op"], (i, j))) if s["rv"]["k"] == "use" else ("rv",)
+        from ..util import ret_assigns as _ra
+        for (i, j, node0) in _ra(tr, W):
+            for node in [peel(x) for x in leaves(node0)]:
+                if True:
                     if node[0] == "const" and node[1] == "true":
                         n_true += 1
                         ok = bool(succ_edges) and g.edges_dominate(succ_edges, i)
@@ -224,6 +231,7 @@ def run(facts, tr, rep):
                 rep.ob("C08.CAP", "%s|%s|%s" % (dp.crate.name, dp.def_, m), ok, cs.where(),
                        "deposited balance is min(_, maximum)" if ok else "deposited balance is not capped by min(_, maximum)")
         rep.floor("C08.deposit-writes:" + adt_def.split("::")[-1], nd, 1)
+        facts, tr = facts0, tr0
         # INIT: in every constructor the initial balance is bounded by the same configured maximum: either it is
         # computed from the very parameters the maximum is computed from, or it is min(_, that)
         from ..util import agg_sites
